@@ -408,6 +408,74 @@ def _run_reject(case):
     except Exception:
         ok = False
     flags["valid_accepted"] = ok
+    # ---- malformed centres of every kind (F91): a ragged one, a complex one, a missing one; priors and per-channel values stay legal
+    from holopy.core.prior import Uniform
+    flags["center_ragged"] = rejects(Sphere, n=1.5, r=1.0, center=(1, 2, [3, 4]))
+    flags["center_complex"] = rejects(Sphere, n=1.5, r=1.0, center=(1j, 0, 0)) and rejects(Sphere, n=1.5, r=1.0, center=(np.complex128(1 + 1j), 0, 0))
+    flags["center_none_component"] = rejects(Sphere, n=1.5, r=1.0, center=(None, 0, 0))
+    flags["ellipsoid_negative_semi_axis"] = rejects(Ellipsoid, n=1.5, r=(-1, 1, 1), center=(0, 0, 0))           # (F97)
+    try:
+        Sphere(n=1.5, r=1.0, center=(Uniform(0, 1), 2.0, Uniform(3, 4))); Sphere(n=1.5, r=1.0, center=({"red": 1.0, "green": 2.0}, 0, 0))
+        Ellipsoid(n=1.5, r=(Uniform(0.5, 1), 1, 1), center=(0, 0, 0))
+        flags["prior_and_channel_centres_accepted"] = True
+    except Exception:
+        flags["prior_and_channel_centres_accepted"] = False
+    # ---- arguments of translated / rotated (F94)
+    flags["translated_scalar_rejected"] = rejects(good.translated, 5)
+    flags["translated_missing_component_rejected"] = rejects(good.translated, 1, None, 3)
+    flags["translated_pair_rejected"] = rejects(good.translated, [1, 2])
+    flags["composite_translated_scalar_rejected"] = rejects(S.translated, 5) and rejects(S.rotated, 0.3)
+    # ---- a collection given as an iterator is the collection (F93)
+    a, b = Sphere(n=1.5, r=1.0, center=(0, 0, 0)), Sphere(n=1.4, r=1.0, center=(1.2, 0, 0))
+    import warnings
+    with warnings.catch_warnings(record=True) as w:
+        warnings.simplefilter("always")
+        it = Spheres(iter([a, b]))
+    try:
+        flags["spheres_from_iterator"] = bool(len(it.scatterers) == 2 and abs(it.largest_overlap() - 0.8) < 1e-12 and len(it.overlaps) == 1 and any("verlap" in str(x.message) for x in w))
+    except Exception:
+        flags["spheres_from_iterator"] = False
+    # ---- set operations (F95, F96, F98, F99)
+    from holopy.scattering.scatterer import Union, Difference, Intersection, Capsule
+    c = Sphere(n=1.5, r=1.0, center=(0, 1.1, 0))
+    try:
+        nested = Union(Union(a, Sphere(n=1.5, r=1.0, center=(1.2, 0, 0))), c)
+        pts = np.array([[0, 0, 0], [1.2, 0.5, 0], [0, 1.9, 0], [5, 5, 5], [-0.9, -0.9, 0]], dtype=float)
+        got = nested.contains(pts)
+        exp = [True, True, True, False, False]
+        flags["nested_union"] = bool(list(np.asarray(got, dtype=bool)) == exp)
+    except Exception:
+        flags["nested_union"] = False
+    flags["union_with_layered_rejected"] = rejects(Union, Sphere(n=(1.5, 1.4), r=(0.5, 1.0), center=(0, 0, 0)), Sphere(n=1.5, r=1.0, center=(1, 0, 0)))
+    try:
+        cap = Capsule(n=1.5, h=2.0, d=1.0, center=(0, 0, 0), rotation=(0, 0, 0))
+        cloud = np.random.default_rng(5).uniform(-2.2, 2.2, (400, 3))
+        inside = np.asarray(cap.contains(cloud), dtype=bool)
+        # capsule along z: cylinder of height h and radius d/2 with hemispherical caps
+        rho = np.hypot(cloud[:, 0], cloud[:, 1]); zz = np.abs(cloud[:, 2])
+        exp = np.where(zz <= 1.0, rho < 0.5, np.sqrt(rho ** 2 + (zz - 1.0) ** 2) < 0.5)
+        margin = np.abs(np.where(zz <= 1.0, rho - 0.5, np.sqrt(rho ** 2 + (zz - 1.0) ** 2) - 0.5)) > 1e-9
+        flags["capsule_point_cloud"] = bool(inside.shape == (400,) and np.array_equal(inside[margin], exp[margin]))
+        capidx = cap.index_at(np.array([[0.0, 0.0, 1.3], [0.0, 0.0, 0.0], [0.0, 0.0, 3.0]]), 1.33)
+        flags["capsule_caps_have_its_index"] = bool(capidx[0] == 1.5 and capidx[1] == 1.5 and capidx[2] == 1.33)
+        u = Union(cap, Sphere(n=1.5, r=0.7, center=(0, 0, 1.6)))
+        flags["capsule_in_set_operation"] = bool(np.asarray(u.contains(np.array([[0, 0, 2.2], [0, 0, 0.0], [0, 0, 3.0]], dtype=float)), dtype=bool).tolist() == [True, True, False])
+    except Exception:
+        flags["capsule_point_cloud"] = flags.get("capsule_point_cloud", False); flags["capsule_in_set_operation"] = False
+    try:
+        sph = Spheroid(n=1.5, r=(0.5, 1.0), center=(0, 0, 0), rotation=(0, 0, 0))
+        cloud = np.random.default_rng(6).uniform(-1.2, 1.2, (300, 3))
+        inside = np.asarray(sph.contains(cloud), dtype=bool)
+        q = (cloud[:, 0] ** 2 + cloud[:, 1] ** 2) / 0.25 + cloud[:, 2] ** 2
+        flags["spheroid_point_cloud"] = bool(inside.shape == (300,) and np.array_equal(inside[np.abs(q - 1) > 1e-9], (q < 1)[np.abs(q - 1) > 1e-9]))
+    except Exception:
+        flags["spheroid_point_cloud"] = False
+    # ---- the exterior of a voxelation is the medium that was named (F92)
+    try:
+        vox = good.voxelate(0.5, 1.33)
+        flags["voxelate_exterior_is_medium"] = bool(set(np.unique(vox).tolist()) == {1.33, 1.5})
+    except Exception:
+        flags["voxelate_exterior_is_medium"] = False
     return {"flags": flags, "resid": {}, "n_in": 1, "n_out": 1}
 
 
